@@ -436,10 +436,8 @@ func (m *Mux) serveHTTP(w http.ResponseWriter, r *http.Request) error {
 
 		if herr != nil {
 			s, _ := status.FromError(herr)
-			// TODO: limit message size.
-
 			code := WSStatusCode(s.Code())
-			f := ws.NewCloseFrame(ws.NewCloseFrameBody(code, s.Message()))
+			f := ws.NewCloseFrame(ws.NewCloseFrameBody(code, wsCloseReason(s.Message())))
 			b, err := ws.CompileFrame(f)
 			if err != nil {
 				return err
